@@ -79,8 +79,14 @@ func (f *Frame) inlineCall(bi *BInfo, fn *ssa.Function, cl *closureVal, args []T
 			child.setVal(fv, mk(g.freshConst("freevar:"+fv.Name(), "Int"), "Int", fv.Type()))
 		}
 	}
-	out, res, _ := child.run(bi.out, bi.R)
+	out, res, rexit := child.run(bi.out, bi.R)
 	bi.out = out
+	if rexit != "" && rexit != bi.R && (len(child.loops) > 0 || child.exitStrengthened) {
+		f.exitStrengthened = true
+		// the callee returns only when its loops have terminated: what follows the call is
+		// reached under the callee's exit condition (which implies the condition of the call)
+		bi.R = rexit
+	}
 	if len(res) < fn.Signature.Results().Len() {
 		res = append(res, f.freshResults(fn.Signature)[len(res):]...)
 	}
